@@ -5,7 +5,7 @@ import CashewsVerif.Model.TxSched
   case <nkeys>                     -> ok            (forget everything)
   init <k> <v>                     -> ok
   task <tx|plain> <fast|locked|serializable> <timeout u> <ctx|dec> <op>*   -> ok
-        op = set:k:v | incr:k:n | get:k | del:k | sleep:d | raise | nin:ctx | nin:dec | nout
+        op = set:k:v | incr:k:n | get:k | del:k | expire:k | setx:k:v:0|1 | sleep:d | raise | nin:ctx | nin:dec | nout
   run <tid>                        -> label=<command the task was parked before> store=… locks=… now=…
   adv <u>                          -> store=… locks=… now=…
   end                              -> outcomes of all tasks
@@ -30,6 +30,9 @@ def parseCmd? (s : String) : Option Cmd :=
   | ["incr", k, n] => do pure (.incr (← k.toNat?) (← n.toInt?))
   | ["get", k] => do pure (.get (← k.toNat?))
   | ["del", k] => do pure (.delete (← k.toNat?))
+  | ["expire", k] => do pure (.expire (← k.toNat?))
+  | ["setx", k, v, "1"] => do pure (.setx (← k.toNat?) (← v.toInt?) true)
+  | ["setx", k, v, "0"] => do pure (.setx (← k.toNat?) (← v.toInt?) false)
   | ["sleep", d] => do pure (.sleep (← d.toNat?))
   | ["raise"] => some .raise
   | ["nin", f] => do pure (.nestIn (← parseForm? f))
@@ -60,10 +63,14 @@ def label (t : Task) : String :=
   | .lockTry k _ => "set_lock:" ++ showLock (lockKeyOf t.mode k)
   | .seedGet k _ => s!"get:{k}"
   | .readGet k => s!"get:{k}"
+  | .expGet k => s!"get:{k}"
+  | .existsGet k _ _ => s!"exists:{k}"
   | .direct (.set k _) => s!"set:{k}"
   | .direct (.incr k _) => s!"incr:{k}"
   | .direct (.get k) => s!"get:{k}"
   | .direct (.delete k) => s!"delete:{k}"
+  | .direct (.expire k) => s!"expire:{k}"
+  | .direct (.setx k _ _) => s!"set:{k}"
   | .direct _ => "none"
   | .commitDel => "delete_many:" ++ "+".intercalate ((sortNat t.del).map toString)
   | .commitSet =>
